@@ -12,19 +12,23 @@
   (`setters t`: loops, handlers, the ctx watcher).  A call thread that recovers a panic enters
   `setErr` as setter `c`.
 
-  Error values are `Nat` codes.  The four values panrpc produces itself are fixed; every value
+  Error values are `Nat` codes.  The five values panrpc produces itself are fixed; every value
   injected from outside (transport, codec, handler, signature errors) is `eExt n`, distinct from
-  those four:
+  those five:
       eClosed   utils.ErrClosed               (only ever produced by the broadcaster)
       eLinkCtx  linkCtx.Err()
       eMarshal  marshal failure of an argument / of the request
       eDecode   unmarshal failure of a response value
+      eCallCtx  the call's own ctx.Err(), as a PANIC value of the stub: only if `Receive` refuses a
+                context that is done already (`sk.bcReceiveErrorsOnlyClosed = false`); the regular
+                way a call learns of its context's end is `RespErr.ctxErr` through the waiter
 
   Source map (registry.go, stub literal passed to reflect.MakeFunc):
     callStart        callID := uuid.NewString(); the arg loop: registerClosure + defer freeClosure
                      for every func argument (`sk.stubFuncArgsRegistered`), marshal
     callMarshalFail  `panic(err)` after a marshal failure of a later argument / cmd.Marshal
-    callReceive      responseResolver.Receive(callID, ctx); refused → panic(ErrClosed)
+    callReceive      responseResolver.Receive(callID, ctx); every error is `panic(err)`:
+                     refused → panic(ErrClosed); refusedCtx → panic(ctx.Err())
     callSpawn        `go func() { defer Free(callID); r, err := rr(); …; res <- *r }()`
     callWrite        writeRequest(b) through the ctx-checking wrapper; callWriteFail: panic(err)
     waiterRecvCall   the waiter calls rr(): enters the receive function's select
@@ -77,8 +81,10 @@ def eClosed  : Nat := 0
 def eLinkCtx : Nat := 1
 def eMarshal : Nat := 2
 def eDecode  : Nat := 3
+/-- the call's own context error, as the value `Receive` returned for a context that was done already -/
+def eCallCtx : Nat := 4
 /-- an error value that comes from outside panrpc (transport, codec, handler, …) -/
-def eExt (n : Nat) : Nat := n + 4
+def eExt (n : Nat) : Nat := n + 5
 
 inductive RespErr where
   | none      -- nil
@@ -250,6 +256,8 @@ def step (sk : Skeleton) (s : State) : Act → Option State
       | some bc' =>
         if bc'.rcvs c = .refused then
           some { s with bc := bc', crashed := bc'.crashed, calls := upd s.calls c { s.calls c with pc := .panicking eClosed } }
+        else if bc'.rcvs c = .refusedCtx then
+          some { s with bc := bc', crashed := bc'.crashed, calls := upd s.calls c { s.calls c with pc := .panicking eCallCtx } }
         else
           some { s with bc := bc', crashed := bc'.crashed, calls := upd s.calls c { s.calls c with pc := .registered } }
       | none => none
